@@ -603,6 +603,12 @@ class StateMachine:
                 self.done()
 
                 if self.__should_engage:
+                    # still engaged: the machine starts over at the instant
+                    # the last state expired, so tm restarts there
+                    self.__start += new_state_start
+                    self.__engaged = True
+                    tm -= new_state_start
+                    new_state_start = 0
                     self.next_state(self.__first)
                     state = self.__state
                 else:
